@@ -116,10 +116,13 @@ pub fn c01(ctx: &mut Ctx, tier: &str, seed: u64) {
                 }
             }
         }
-        // single-component conversion
-        if fwd.len() == 1 {
+        // single-component conversion: succeeds exactly on one-component paths, with that component
+        {
+            let want = if fwd.len() == 1 { Some(fwd[0].clone()) } else { None };
             let r = UnixComponent::try_from(s.as_slice()).ok().map(|c| sc_u(&c));
-            if r != Some(fwd[0].clone()) {
+            let r2 = std::str::from_utf8(s).ok().map(|st| UnixComponent::try_from(st).ok().map(|c| sc_u(&c)));
+            let r3 = <&[u8; 2]>::try_from(s.as_slice()).ok().map(|a| UnixComponent::try_from(a).ok().map(|c| sc_u(&c)));
+            if r != want || r2.map_or(false, |x| x != want) || r3.map_or(false, |x| x != want) {
                 ctx.fail("component-try-from", None, format!("comps u {}", hex(s)), format!("{:?}", r));
             }
         }
@@ -231,13 +234,30 @@ pub fn c02(ctx: &mut Ctx, tier: &str, seed: u64) {
                 ctx.fail("query-is-verbatim", None, format!("wq {}", hex(s)), format!("{:?}", k));
             }
         }
-        // a lone prefix converts back to itself
-        if got.len() == 1 {
-            if let Some((k, _)) = &d.prefix {
-                let r = WindowsPrefix::try_from(s.as_slice()).ok().map(|x| kind_of(&x));
-                if r.as_ref() != Some(k) {
-                    ctx.fail("prefix-try-from", None, rp.clone(), format!("{:?}", r));
-                }
+        // single-item conversions: a component from a one-component path, a prefix (component) from a
+        // path that is exactly one prefix; anything else is refused
+        {
+            let want_c = if d.comps.len() == 1 { Some(d.comps[0].clone()) } else { None };
+            let rc = WindowsComponent::try_from(s.as_slice()).ok().map(|c| sc_w(&c));
+            let rc2 = std::str::from_utf8(s).ok().map(|st| WindowsComponent::try_from(st).ok().map(|c| sc_w(&c)));
+            let rc3 = <&[u8; 2]>::try_from(s.as_slice()).ok().map(|a| WindowsComponent::try_from(a).ok().map(|c| sc_w(&c)));
+            if rc != want_c || rc2.map_or(false, |x| x != want_c) || rc3.map_or(false, |x| x != want_c) {
+                ctx.fail("component-try-from", None, rp.clone(), format!("{:?} want {:?}", rc, want_c));
+            }
+            let want_k = match (&d.prefix, d.comps.len()) {
+                (Some((k, _)), 1) => Some(k.clone()),
+                _ => None,
+            };
+            let rk = WindowsPrefix::try_from(s.as_slice()).ok().map(|x| kind_of(&x));
+            let rk2 = std::str::from_utf8(s).ok().map(|st| WindowsPrefix::try_from(st).ok().map(|x| kind_of(&x)));
+            let rk3 = <&[u8; 2]>::try_from(s.as_slice()).ok().map(|a| WindowsPrefix::try_from(a).ok().map(|x| kind_of(&x)));
+            let rp1 = typed_path::WindowsPrefixComponent::try_from(s.as_slice()).ok().map(|x| (kind_of(&x.kind()), x.as_bytes().to_vec()));
+            let rp2 = std::str::from_utf8(s).ok().map(|st| typed_path::WindowsPrefixComponent::try_from(st).ok().map(|x| (kind_of(&x.kind()), x.as_bytes().to_vec())));
+            let rp3 = <&[u8; 2]>::try_from(s.as_slice()).ok().map(|a| typed_path::WindowsPrefixComponent::try_from(a).ok().map(|x| (kind_of(&x.kind()), x.as_bytes().to_vec())));
+            let want_p = want_k.clone().map(|k| (k, s.clone()));
+            if rk != want_k || rk2.map_or(false, |x| x != want_k) || rk3.map_or(false, |x| x != want_k)
+                || rp1 != want_p || rp2.map_or(false, |x| x != want_p) || rp3.map_or(false, |x| x != want_p) {
+                ctx.fail("prefix-try-from", None, rp.clone(), format!("{:?} / {:?} want {:?}", rk, rp1.map(|x| x.0), want_k));
             }
         }
     }
